@@ -200,10 +200,10 @@ class TaskingEngine(metaclass=ABCMeta):
         Args:
             missed_observations (``list``): :class:`.MissedObservation` to save
         """
-        for miss in missed_observations:
-            if miss:
-                self._missed_observations.extend(missed_observations)
-                self._saved_missed_observations.extend(missed_observations)
+        # [NOTE]: each missed observation is saved once (extending inside the loop stored the whole list per element)
+        valid_misses = [miss for miss in missed_observations if miss]
+        self._missed_observations.extend(valid_misses)
+        self._saved_missed_observations.extend(valid_misses)
 
     def updateFromAsyncTaskExecution(self, sensor_info_list: list) -> None:
         """Save Changes to sensor as a result of tasking.
